@@ -433,7 +433,7 @@ def run(repo: Repo, rep: Report) -> None:  # noqa: F811
     # (i) Turtle family: what is written as ( ... ) is a well-formed, unshared list of blank cells
     rep.rule("C03.i-turtle-collection-validator",
              "TurtleSerializer / LongTurtleSerializer.isValidList decide whether a node is written as ( ... ), which records only the rdf:first values of the chain: for every cell "
-             "of the walk they require (1) a blank node - an IRI-named cell has an identity the abbreviation cannot express, (2) no second referrer (self._references of a cell "
+             "of the walk they require (1) a blank node - an IRI-named cell has an identity the abbreviation cannot express, (2) no second referrer (the per-node count that preprocess() keeps in a `self.<A>[node] += 1`, read for a cell "
              "after the head) - a shared tail would lose its identity, (3) exactly the properties rdf:first and rdf:rest, by name - a bare property count accepts a cell with "
              "rdf:first plus some other property and drops that property", floor=6)
     for modname, cname in (("rdflib.plugins.serializers.turtle", "TurtleSerializer"), ("rdflib.plugins.serializers.longturtle", "LongTurtleSerializer")):
@@ -453,7 +453,16 @@ def run(repo: Repo, rep: Report) -> None:  # noqa: F811
         tests = [t for n in rejects for t in [n.test]]
         txt = [norm(t) for t in tests]
         c1 = any("isinstance(%s, BNode)" % cur in t for t in txt)
-        c2 = any("_references[%s]" % cur in t for t in txt)
+        # the referrer count, by role: a `self.<A>` that the preprocessing pass of the class increments per node (h_c03.referrer_counters),
+        # read for the cursor of the walk in a rejecting test
+        from vlib.h_c03 import referrer_counters
+
+        counters = referrer_counters(repo, modname + "." + cname)
+        if not counters:
+            raise AnalysisError("%s: no per-node referrer count (`self.<A>[node] += 1` in what preprocess() reaches) found" % cname)
+        c2 = any(isinstance(s_, ast.Subscript) and isinstance(s_.ctx, ast.Load) and isinstance(s_.slice, ast.Name) and s_.slice.id == cur
+                 and isinstance(s_.value, ast.Attribute) and norm(s_.value.value) == "self" and s_.value.attr in counters
+                 for t in tests for s_ in ast.walk(t))
         c3 = any("RDF.first" in t and "RDF.rest" in t for t in txt)
         for ok, what, why in ((c1, "cells must be blank nodes", "an IRI-named cell inside the chain is written as an anonymous member of ( ... ): the IRI and its link are lost"),
                               (c2, "cells after the head have no second referrer", "a list tail that is also referenced from elsewhere (`:t :tail _:c2`) is folded into ( ... ); the other reference dangles"),
